@@ -153,6 +153,8 @@ impl SubCheck for Sub {
                 // default largest: hour for times, second for instants
                 let largest = c.largest.unwrap_or(if is_time { U::Hour } else { U::Second });
                 let want = balance_time(diff, largest);
+                // an explicit `auto` means the same as an absent largestUnit (every fourth default case asks for it)
+                let explicit_auto = c.largest.is_none() && (c.a + c.b).rem_euclid(4) == 0;
                 o = o.class(if is_time { "time.diff" } else { "instant.diff" }).nontrivial(diff < 0 || diff.abs() >= (1i128 << 63) || c.largest.is_none());
                 if diff < 0 {
                     o = o.class("negative");
@@ -163,7 +165,10 @@ impl SubCheck for Sub {
                 if diff.abs() >= (1i128 << 63) {
                     o = o.class("|diff|>=2^63ns");
                 }
-                let st = diff_settings(c.largest.map(unit), None, None, None);
+                let st = diff_settings(if explicit_auto { Some(temporal_rs::options::Unit::Auto) } else { c.largest.map(unit) }, None, None, None);
+                if explicit_auto {
+                    o = o.class("explicit-largest-auto");
+                }
                 let r = match c.op {
                     Op::TimeUntil => plain_time(c.a).unwrap().until(&plain_time(c.b).unwrap(), st),
                     Op::TimeSince => plain_time(c.a).unwrap().since(&plain_time(c.b).unwrap(), st),
